@@ -118,7 +118,15 @@ func cmdRun(args []string) {
 		}
 		idx := *start + k**stride
 		ws := h.Mix(*seed, uint64(idx))
-		w := sc.Gen(h.NewRng(ws), *tier)
+		var w *h.World
+		if sc.GenIdx != nil {
+			w = sc.GenIdx(*seed, idx, *tier)
+		} else {
+			w = sc.Gen(h.NewRng(ws), *tier)
+		}
+		if w.Params["skip"] == 1 {
+			continue // an index beyond the enumerated fault space of its request
+		}
 		w.Seed, w.Idx, w.Prop = ws, idx, *prop
 		ro := h.RunWorld(sc, w, false, false)
 		if ro.Harness != "" {
